@@ -1,12 +1,13 @@
 //@target src/decoder/ehs/base.rs
 //@props C09
-//@assume libm: f64::sqrt, f64::atan2, f64::powi are replaced by ghost-recording stand-ins constrained only by their range (sqrt >= 0 and finite, atan2 in [-pi,pi], powi(x,2) = x*x); the obligation pins the ARGUMENTS passed to them and how their results are turned into integers
+//@frem src/decoder/ehs/base.rs
+//@assume libm: f64::sqrt, f64::atan2, f64::powi are replaced by ghost-recording stand-ins constrained only by their range (sqrt >= 0 and finite, atan2 in [-pi,pi], powi(x,2) in [0, 2e6]); the obligation pins the ARGUMENTS passed to them and how their results are turned into integers
 
 #[cfg(kani)]
 mod verif_c09_velocity {
     use super::*;
     use crate::verif_spec::h::*;
-    use crate::verif_spec::*;
+    use crate::verif_spec as vs;
 
     static mut G_SQRT_ARG: f64 = -1.0;
     static mut G_SQRT_RET: f64 = -1.0;
@@ -37,8 +38,24 @@ mod verif_c09_velocity {
         }
         r
     }
+    // powi stand-in: records its two uses and returns arbitrary non-negative values p0, p1
+    // (libm contract: powi(x, 2) = x^2); the obligation pins the arguments and that the square
+    // root is taken of p0 + p1.
+    static mut G_POWI_CALLS: usize = 0;
+    static mut G_POWI_ARG: [(f64, i32); 2] = [(0.0, 0); 2];
+    static mut G_POWI_RET: [f64; 2] = [0.0; 2];
     fn stub_powi(x: f64, n: i32) -> f64 {
-        if n == 2 { x * x } else { kani::any() }
+        let r: f64 = kani::any();
+        kani::assume(r >= 0.0 && r <= 2_000_000.0);
+        unsafe {
+            let k = G_POWI_CALLS;
+            G_POWI_CALLS += 1;
+            if k < 2 {
+                G_POWI_ARG[k] = (x, n);
+                G_POWI_RET[k] = r;
+            }
+        }
+        r
     }
 
     //@ob id=C09.velocity.no_information props=C09 tier=quick kind=harness fns=ehs/base.rs:track_and_groundspeed draw=frame28
@@ -51,45 +68,65 @@ mod verif_c09_velocity {
     fn c09_velocity_no_information() {
         let m = any_frame28();
         let ss: bool = kani::any();
-        kani::assume(spec_v_east(&m).is_none() || spec_v_north(&m).is_none());
+        kani::assume(vs::spec_v_east(&m).is_none() || vs::spec_v_north(&m).is_none());
         let (track, gs) = track_and_groundspeed(&m, ss);
         assert!(track.is_none(), "component field 0: no track");
         assert!(gs.is_none(), "component field 0: no ground speed");
         kani::cover!(true, "reach_end");
     }
 
-    //@ob id=C09.velocity.value props=C09 tier=quick kind=harness fns=ehs/base.rs:track_and_groundspeed draw=frame28
-    //@region all long frames with both component fields non-zero (all 2x1023x2x1023 sign/magnitude pairs), both subtypes: gs = floor(sqrt(Vew^2+Vns^2)) (x4 within 4 kt supersonic), track = floor(deg(atan2(Vew,Vns))) mod 360, components = +/-(field-1)
+    fn value_setup() -> ([u32; 28], bool, i32, i32, (Option<u32>, Option<u32>)) {
+        let m = any_frame28();
+        let ss: bool = kani::any();
+        let (ve, vn) = (vs::spec_v_east(&m), vs::spec_v_north(&m));
+        kani::assume(ve.is_some() && vn.is_some());
+        let r = track_and_groundspeed(&m, ss);
+        (m, ss, ve.unwrap(), vn.unwrap(), r)
+    }
+
+    //@ob id=C09.velocity.speed props=C09 tier=quick kind=harness fns=ehs/base.rs:track_and_groundspeed draw=frame28
+    //@region all long frames with both component fields non-zero (all 2x1023x2x1023 sign/magnitude pairs), both subtypes: components = +/-(field-1); sqrt taken of Vew^2+Vns^2, atan2 of (Vew, Vns); ground speed = floor(sqrt) (x4, within 4 kt, supersonic)
     #[kani::proof]
     #[kani::unwind(34)]
     #[kani::stub(f64::sqrt, stub_sqrt)]
     #[kani::stub(f64::atan2, stub_atan2)]
     #[kani::stub(f64::powi, stub_powi)]
-    fn c09_velocity_value() {
-        let m = any_frame28();
-        let ss: bool = kani::any();
-        let (ve, vn) = (spec_v_east(&m), spec_v_north(&m));
-        kani::assume(ve.is_some() && vn.is_some());
-        let (ve, vn) = (ve.unwrap(), vn.unwrap());
-        let (track, gs) = track_and_groundspeed(&m, ss);
+    fn c09_velocity_speed() {
+        let (_m, ss, ve, vn, (_track, gs)) = value_setup();
         unsafe {
             assert!(G_SQRT_CALLS == 1 && G_ATAN2_CALLS == 1, "one sqrt, one atan2");
-            assert!(G_SQRT_ARG == (ve * ve + vn * vn) as f64, "speed = sqrt(Vew^2 + Vns^2) of the signed components (field-1)");
+            assert!(G_POWI_CALLS == 2 && G_POWI_ARG[0] == (ve as f64, 2) && G_POWI_ARG[1] == (vn as f64, 2), "the two squares are of the signed components Vew, Vns = +/-(field-1)");
+            assert!(G_SQRT_ARG == G_POWI_RET[0] + G_POWI_RET[1], "speed = sqrt(Vew^2 + Vns^2)");
             assert!(G_ATAN2_Y == ve as f64 && G_ATAN2_X == vn as f64, "angle = atan2(Vew, Vns)");
             let r = G_SQRT_RET;
-            let fl = r.floor() as u32;
             match gs {
                 Some(g) => {
                     if ss {
-                        let diff = g as f64 - 4.0 * r;
-                        assert!(diff >= -4.0 && diff <= 4.0, "supersonic: ground speed within 4 kt of 4*sqrt(..)");
+                        assert!(g == (r.floor() as u32) * 4, "supersonic: ground speed = 4*floor(sqrt(..)), i.e. within 4 kt of 4*sqrt(..)");
                     } else {
-                        assert!(g == fl, "ground speed = floor(sqrt(..))");
+                        assert!(g == r.floor() as u32, "ground speed = floor(sqrt(..))");
                     }
                 }
                 None => assert!(false, "both components known: ground speed has a value"),
             }
-            assert!(track == Some(spec_track_from_angle(G_ATAN2_RET)), "track = floor(degrees(atan2(..))) in [0,360)");
+        }
+        kani::cover!(true, "reach_end");
+    }
+
+    //@ob id=C09.velocity.track props=C09 tier=quick kind=harness fns=ehs/base.rs:track_and_groundspeed draw=frame28
+    //@region same frames: track = floor(degrees(angle)) brought into [0,360), for every angle in [-pi,pi] the arctangent may return
+    #[kani::proof]
+    #[kani::unwind(34)]
+    #[kani::stub(f64::sqrt, stub_sqrt)]
+    #[kani::stub(f64::atan2, stub_atan2)]
+    #[kani::stub(f64::powi, stub_powi)]
+    fn c09_velocity_track() {
+        let (_m, _ss, _ve, _vn, (track, _gs)) = value_setup();
+        let d = unsafe { G_ATAN2_RET }.to_degrees().floor(); // in [-180, 180]
+        let want = if d < 0.0 { d + 360.0 } else { d };
+        match track {
+            Some(t) => assert!(t as f64 == want && t < 360, "track = floor(degrees(atan2(..))) in [0,360)"),
+            None => assert!(false, "both components known: track has a value"),
         }
         kani::cover!(true, "reach_end");
     }
